@@ -117,8 +117,9 @@ func TestC05Loop(t *testing.T) {
 	rec := recC05()
 	rapid.Check(t, func(t *rapid.T) {
 		// moves that get interrupted (destination unready / unreachable, lost updates) and are started
-		// again are part of "every sequence of cycles and scrapes during a move"; faults that reset
-		// sidecar state (restart, shard removal) are left to C06
+		// again are part of "every sequence of cycles and scrapes during a move", and so is a sidecar that
+		// restarts from its store in the middle of one (its scrape counts begin again at 0, which can only make the
+		// source wait longer); faults that take sidecar state away (shard removal) are left to C06
 		var c *Case
 		if rapid.IntRange(0, 4).Draw(t, "heldMove") == 0 {
 			c = GenHeldMove(t)
@@ -134,7 +135,7 @@ func TestC05Loop(t *testing.T) {
 		var keep []Action
 		for _, a := range c.Prefix {
 			switch a.Kind {
-			case "restart", "killTail", "scaleDown", "outOfSync":
+			case "killTail", "scaleDown", "outOfSync":
 				continue
 			}
 			keep = append(keep, a)
